@@ -1,83 +1,148 @@
 package main
 
-// Solver driver: one long-lived solver process per engine run, term DAG emitted incrementally as define-funs,
-// assumptions asserted at base level, queries under push/pop.
+// Solver driver: one long-lived incremental solver process per engine run (term DAG emitted incrementally as
+// define-funs, assumptions asserted at base level, queries under push/pop) with a hard watchdog; queries the
+// incremental solver cannot decide in time are re-decided one-shot (cone of influence only) by a portfolio.
 
 import (
 	"bufio"
+	"bytes"
+	"context"
 	"fmt"
 	"io"
 	"os/exec"
 	"strconv"
 	"strings"
+	"sync"
 	"time"
 )
 
 type Solver struct {
-	name    string
-	cmd     *exec.Cmd
-	in      io.WriteCloser
-	out     *bufio.Reader
-	defined map[int]bool
-	declared map[string]bool
-	Queries int
-	Time    time.Duration
-	log     io.Writer
-	dead    bool
-	timeoutMs int
+	name        string
+	cmd         *exec.Cmd
+	in          io.WriteCloser
+	lines       chan string
+	defined     map[int]bool
+	declared    map[string]bool
+	declOrder   []string
+	assumptions []*Term
+	Queries     int
+	OneShots    int
+	Restarts    int
+	Time        time.Duration
+	log         io.Writer
+	dead        bool
+	timeoutMs   int
+	quickMs     int
+	fallback    []string
+	asyncSolvers []string
+	Jobs        int
+	Cross       bool
+	sem         chan struct{}
+	mu          sync.Mutex
+	AsyncQueries int
+	AsyncTime   time.Duration
 }
 
-func solverArgv(name string, timeoutMs int) []string {
+func solverArgv(name string, timeoutMs int, incremental bool) []string {
 	switch name {
 	case "z3":
 		return []string{"z3", "-in", fmt.Sprintf("-t:%d", timeoutMs)}
 	case "z3-new":
 		return []string{"z3-new", "-in", fmt.Sprintf("-t:%d", timeoutMs)}
 	case "cvc5":
-		return []string{"cvc5", "--incremental", "--produce-models", "--lang=smt2", fmt.Sprintf("--tlimit-per=%d", timeoutMs)}
+		a := []string{"cvc5", "--produce-models", "--lang=smt2", fmt.Sprintf("--tlimit-per=%d", timeoutMs)}
+		if incremental {
+			a = append(a, "--incremental")
+		}
+		return a
 	}
 	panic("unknown solver " + name)
 }
 
 func NewSolver(name string, timeoutMs int, log io.Writer) (*Solver, error) {
-	argv := solverArgv(name, timeoutMs)
+	s := &Solver{name: name, log: log, timeoutMs: timeoutMs}
+	s.quickMs = timeoutMs
+	if s.quickMs > 10000 {
+		s.quickMs = 10000
+	}
+	s.fallback = []string{"z3-new", "cvc5"}
+	s.asyncSolvers = []string{"z3-new"}
+	if err := s.start(); err != nil {
+		return nil, err
+	}
+	return s, nil
+}
+
+func (s *Solver) start() error {
+	argv := solverArgv(s.name, s.quickMs, true)
 	cmd := exec.Command(argv[0], argv[1:]...)
 	in, err := cmd.StdinPipe()
 	if err != nil {
-		return nil, err
+		return err
 	}
 	outp, err := cmd.StdoutPipe()
 	if err != nil {
-		return nil, err
+		return err
 	}
 	cmd.Stderr = cmd.Stdout
 	if err := cmd.Start(); err != nil {
-		return nil, err
+		return err
 	}
-	s := &Solver{name: name, cmd: cmd, in: in, out: bufio.NewReaderSize(outp, 1<<20), defined: map[int]bool{}, declared: map[string]bool{}, log: log, timeoutMs: timeoutMs}
-	if name == "cvc5" {
+	s.cmd, s.in = cmd, in
+	s.lines = make(chan string, 1024)
+	ch := s.lines
+	go func() {
+		rd := bufio.NewReaderSize(outp, 1<<20)
+		for {
+			line, err := rd.ReadString('\n')
+			if line != "" {
+				ch <- line
+			}
+			if err != nil {
+				close(ch)
+				return
+			}
+		}
+	}()
+	s.defined = map[int]bool{}
+	s.declared = map[string]bool{}
+	s.declOrder = nil
+	s.dead = false
+	if s.name == "cvc5" {
 		s.send("(set-logic QF_BV)")
 	}
 	s.send("(set-option :produce-models true)")
-	return s, nil
+	for _, a := range s.assumptions {
+		s.define(a)
+		s.send("(assert " + a.ref() + ")")
+	}
+	return nil
+}
+
+func (s *Solver) kill() {
+	if s.cmd != nil {
+		s.in.Close()
+		s.cmd.Process.Kill()
+		go s.cmd.Wait()
+		s.cmd = nil
+	}
+	s.dead = true
 }
 
 func (s *Solver) send(line string) {
 	if s.log != nil {
 		io.WriteString(s.log, line+"\n")
 	}
+	if s.dead || s.cmd == nil {
+		return
+	}
 	if _, err := io.WriteString(s.in, line+"\n"); err != nil {
 		s.dead = true
 	}
 }
 
-func (s *Solver) Close() {
-	if s.cmd != nil {
-		s.in.Close()
-		s.cmd.Process.Kill()
-		s.cmd.Wait()
-	}
-}
+func (s *Solver) Close() { s.kill() }
 
 // define emits define-funs for every not-yet-defined node below t (iteratively, post-order).
 func (s *Solver) define(t *Term) {
@@ -96,6 +161,7 @@ func (s *Solver) define(t *Term) {
 		if n.op == OpVar {
 			if !s.declared[n.name] {
 				s.declared[n.name] = true
+				s.declOrder = append(s.declOrder, n.name)
 				s.send(fmt.Sprintf("(declare-const |%s| %s)", n.name, sortStr(n.W)))
 			}
 			s.defined[n.id] = true
@@ -119,6 +185,10 @@ func (s *Solver) Assert(t *Term) {
 	if t.IsTrue() {
 		return
 	}
+	s.assumptions = append(s.assumptions, t)
+	if s.dead {
+		return
+	}
 	s.define(t)
 	s.send("(assert " + t.ref() + ")")
 }
@@ -133,17 +203,24 @@ const (
 
 func (r Result) String() string { return [...]string{"unsat", "sat", "unknown"}[r] }
 
-func (s *Solver) readLine() (string, error) {
+// readLine returns the next non-empty output line, or ok=false on timeout / EOF.
+func (s *Solver) readLine(d time.Duration) (string, bool) {
+	timer := time.NewTimer(d)
+	defer timer.Stop()
 	for {
-		line, err := s.out.ReadString('\n')
-		if err != nil {
-			return "", err
+		select {
+		case line, ok := <-s.lines:
+			if !ok {
+				return "", false
+			}
+			line = strings.TrimSpace(line)
+			if line == "" {
+				continue
+			}
+			return line, true
+		case <-timer.C:
+			return "", false
 		}
-		line = strings.TrimSpace(line)
-		if line == "" {
-			continue
-		}
-		return line, nil
 	}
 }
 
@@ -155,41 +232,37 @@ func (s *Solver) Check(t *Term, wantModel bool) (Result, map[string]uint64, stri
 	start := time.Now()
 	defer func() { s.Time += time.Since(start); s.Queries++ }()
 	if s.dead {
-		return Unknown, nil, "solver dead"
+		s.Restarts++
+		if err := s.start(); err != nil {
+			return s.oneShot(t, wantModel, "primary restart failed")
+		}
 	}
 	s.define(t)
 	s.send("(push 1)")
 	s.send("(assert " + t.ref() + ")")
 	s.send("(check-sat)")
-	res := Unknown
-	note := ""
-	line, err := s.readLine()
-	if err != nil {
-		s.dead = true
-		return Unknown, nil, "solver io: " + err.Error()
+	line, ok := s.readLine(time.Duration(s.quickMs)*time.Millisecond + 3*time.Second)
+	if !ok {
+		s.kill()
+		return s.oneShot(t, wantModel, "incremental solver timed out")
 	}
-	switch {
-	case line == "sat":
+	res := Unknown
+	switch line {
+	case "sat":
 		res = Sat
-	case line == "unsat":
+	case "unsat":
 		res = Unsat
-	case line == "unknown" || line == "timeout":
-		res = Unknown
-		note = line
+	case "unknown", "timeout":
+		s.send("(pop 1)")
+		return s.oneShot(t, wantModel, "incremental solver said "+line)
 	default:
-		// error line: inconclusive. Drain is not possible reliably; mark dead.
-		note = line
-		s.dead = true
-		return Unknown, nil, "solver said: " + line
+		s.kill()
+		return s.oneShot(t, wantModel, "incremental solver error: "+line)
 	}
 	var model map[string]uint64
 	if res == Sat && wantModel {
 		model = map[string]uint64{}
-		names := make([]string, 0, len(s.declared))
-		for n := range s.declared {
-			names = append(names, n)
-		}
-		// batch get-value
+		names := s.declOrder
 		const batch = 200
 		for i := 0; i < len(names); i += batch {
 			j := i + batch
@@ -203,98 +276,311 @@ func (s *Solver) Check(t *Term, wantModel bool) (Result, map[string]uint64, stri
 			}
 			sb.WriteString("))")
 			s.send(sb.String())
-			txt, err := s.readSexp()
-			if err != nil {
-				s.dead = true
-				return Unknown, nil, "solver io"
+			txt, ok := s.readSexp(10 * time.Second)
+			if !ok {
+				s.kill()
+				return s.oneShot(t, wantModel, "model read failed")
 			}
 			parseValues(txt, model)
 		}
 	}
 	s.send("(pop 1)")
-	return res, model, note
+	return res, model, ""
 }
 
-// readSexp reads one balanced s-expression from the solver output.
-func (s *Solver) readSexp() (string, error) {
+// readSexp reads one balanced s-expression (possibly spanning lines) from the solver output.
+func (s *Solver) readSexp(d time.Duration) (string, bool) {
 	var sb strings.Builder
 	depth := 0
 	started := false
-	inBar := false
 	for {
-		b, err := s.out.ReadByte()
-		if err != nil {
-			return "", err
+		line, ok := s.readLine(d)
+		if !ok {
+			return "", false
 		}
-		sb.WriteByte(b)
-		if b == '|' {
-			inBar = !inBar
-		}
-		if inBar {
-			continue
-		}
-		if b == '(' {
-			depth++
-			started = true
-		} else if b == ')' {
-			depth--
-			if started && depth == 0 {
-				return sb.String(), nil
+		inBar := false
+		for i := 0; i < len(line); i++ {
+			b := line[i]
+			if b == '|' {
+				inBar = !inBar
 			}
+			if inBar {
+				continue
+			}
+			if b == '(' {
+				depth++
+				started = true
+			} else if b == ')' {
+				depth--
+			}
+		}
+		sb.WriteString(line + " ")
+		if started && depth <= 0 {
+			return sb.String(), true
 		}
 	}
 }
 
-// parseValues parses ((|a| #x01) (|b| true) (|c| (_ bv5 8)) ...)
+// coneText renders a standalone SMT-LIB problem: the cone of influence of the assumptions and the query.
+func (s *Solver) coneText(t *Term, wantModel bool) (string, []string) {
+	return s.coneTextBase(t, len(s.assumptions), wantModel)
+}
+
+func (s *Solver) coneTextBase(t *Term, nBase int, wantModel bool) (string, []string) {
+	var sb strings.Builder
+	seen := map[int]bool{}
+	var vars []string
+	var emit func(n *Term)
+	emit = func(root *Term) {
+		type fr struct {
+			t *Term
+			i int
+		}
+		stack := []fr{{root, 0}}
+		for len(stack) > 0 {
+			f := &stack[len(stack)-1]
+			n := f.t
+			if n.op == OpConst || seen[n.id] {
+				stack = stack[:len(stack)-1]
+				continue
+			}
+			if n.op == OpVar {
+				seen[n.id] = true
+				vars = append(vars, n.name)
+				fmt.Fprintf(&sb, "(declare-const |%s| %s)\n", n.name, sortStr(n.W))
+				stack = stack[:len(stack)-1]
+				continue
+			}
+			if f.i < len(n.args) {
+				a := n.args[f.i]
+				f.i++
+				stack = append(stack, fr{a, 0})
+				continue
+			}
+			fmt.Fprintf(&sb, "(define-fun t%d () %s %s)\n", n.id, sortStr(n.W), n.def())
+			seen[n.id] = true
+			stack = stack[:len(stack)-1]
+		}
+	}
+	for _, a := range s.assumptions[:nBase] {
+		emit(a)
+		sb.WriteString("(assert " + a.ref() + ")\n")
+	}
+	emit(t)
+	sb.WriteString("(assert " + t.ref() + ")\n(check-sat)\n")
+	if wantModel && len(vars) > 0 {
+		sb.WriteString("(get-value (")
+		for _, n := range vars {
+			sb.WriteString("|" + n + "| ")
+		}
+		sb.WriteString("))\n")
+	}
+	return sb.String(), vars
+}
+
+// Future is the pending result of an asynchronous one-shot query.
+type Future struct {
+	done  chan struct{}
+	Res   Result
+	Model map[string]uint64
+	Note  string
+	Ms    int64
+}
+
+func (f *Future) Wait() { <-f.done }
+
+// CheckAsync decides (assumptions-so-far ∧ t) in a fresh solver process, in the background (bounded worker pool).
+func (s *Solver) CheckAsync(t *Term, wantModel bool) *Future {
+	return s.CheckAsyncBase(t, len(s.assumptions), wantModel)
+}
+
+// CheckAsyncBase is CheckAsync on top of the first nBase assumptions only.
+func (s *Solver) CheckAsyncBase(t *Term, nBase int, wantModel bool) *Future {
+	f := &Future{done: make(chan struct{})}
+	if t.IsFalse() {
+		f.Res = Unsat
+		close(f.done)
+		return f
+	}
+	body, _ := s.coneTextBase(t, nBase, wantModel)
+	s.Queries++
+	s.AsyncQueries++
+	if s.sem == nil {
+		n := s.Jobs
+		if n <= 0 {
+			n = 4
+		}
+		s.sem = make(chan struct{}, n)
+	}
+	go func() {
+		s.sem <- struct{}{}
+		defer func() { <-s.sem }()
+		t0 := time.Now()
+		if s.Cross {
+			r1, m1, n1 := s.runPortfolio(body, []string{"z3-new"})
+			r2, m2, n2 := s.runPortfolio(body, []string{"cvc5"})
+			switch {
+			case r1 == r2:
+				f.Res, f.Model, f.Note = r1, m1, "agreed: "+n1+" / "+n2
+			case r1 == Unknown:
+				f.Res, f.Model, f.Note = r2, m2, n2+" (z3-new inconclusive)"
+			case r2 == Unknown:
+				f.Res, f.Model, f.Note = r1, m1, n1+" (cvc5 inconclusive)"
+			default:
+				f.Res, f.Note = Unknown, "SOLVER DISAGREEMENT: z3-new "+r1.String()+" cvc5 "+r2.String()
+			}
+		} else {
+			f.Res, f.Model, f.Note = s.runPortfolio(body, s.asyncSolvers)
+			if f.Res == Unknown {
+				f.Res, f.Model, f.Note = s.runPortfolio(body, []string{"cvc5"})
+			}
+		}
+		f.Ms = time.Since(t0).Milliseconds()
+		s.mu.Lock()
+		s.AsyncTime += time.Since(t0)
+		s.mu.Unlock()
+		close(f.done)
+	}()
+	return f
+}
+
+type oneRes struct {
+	res   Result
+	model map[string]uint64
+	who   string
+}
+
+// oneShot decides the query with fresh solver processes (portfolio), full per-query timeout.
+func (s *Solver) oneShot(t *Term, wantModel bool, why string) (Result, map[string]uint64, string) {
+	s.OneShots++
+	body, _ := s.coneText(t, wantModel)
+	r, m, note := s.runPortfolio(body, s.fallback)
+	return r, m, why + "; " + note
+}
+
+func (s *Solver) runPortfolio(body string, solvers []string) (Result, map[string]uint64, string) {
+	ctx, cancel := context.WithTimeout(context.Background(), time.Duration(s.timeoutMs)*time.Millisecond+2*time.Second)
+	defer cancel()
+	ch := make(chan oneRes, len(solvers))
+	for _, name := range solvers {
+		go func(name string) {
+			argv := solverArgv(name, s.timeoutMs, false)
+			txt := "(set-logic QF_BV)\n(set-option :produce-models true)\n" + body
+			cmd := exec.CommandContext(ctx, argv[0], argv[1:]...)
+			cmd.Stdin = strings.NewReader(txt)
+			var out bytes.Buffer
+			cmd.Stdout = &out
+			cmd.Stderr = &out
+			cmd.Run()
+			o := out.String()
+			first := strings.TrimSpace(strings.SplitN(o, "\n", 2)[0])
+			r := oneRes{res: Unknown, who: name}
+			if first != "sat" && first != "unsat" {
+				r.who = name + " said: " + first
+				ch <- r
+				return
+			}
+			if first == "sat" && strings.Contains(o, "(error") {
+				r.who = name + " error after sat"
+				ch <- r
+				return
+			}
+			switch first {
+			case "sat":
+				r.res = Sat
+				r.model = map[string]uint64{}
+				if i := strings.Index(o, "\n"); i >= 0 {
+					parseValues(o[i+1:], r.model)
+				}
+			case "unsat":
+				r.res = Unsat
+			}
+			ch <- r
+		}(name)
+	}
+	notes := ""
+	for range solvers {
+		r := <-ch
+		if r.res != Unknown {
+			cancel()
+			return r.res, r.model, "one-shot " + r.who
+		}
+		notes += r.who + " inconclusive; "
+	}
+	return Unknown, nil, notes
+}
+
+// parseValues parses ((|a| #x01) (b true) (|c| (_ bv5 8)) ...)
 func parseValues(txt string, model map[string]uint64) {
-	i := 0
 	n := len(txt)
+	i := 0
+	skipWS := func() {
+		for i < n && (txt[i] == ' ' || txt[i] == '\n' || txt[i] == '\t' || txt[i] == '\r') {
+			i++
+		}
+	}
 	for i < n {
-		// find |name|
-		j := strings.IndexByte(txt[i:], '|')
-		if j < 0 {
-			return
+		// find "(" that starts a pair: next token after it is a symbol
+		if txt[i] != '(' {
+			i++
+			continue
 		}
-		j += i
-		k := strings.IndexByte(txt[j+1:], '|')
-		if k < 0 {
-			return
+		i++
+		skipWS()
+		if i >= n || txt[i] == '(' {
+			continue // outer list paren
 		}
-		k += j + 1
-		name := txt[j+1 : k]
-		// value follows
-		p := k + 1
-		for p < n && (txt[p] == ' ' || txt[p] == '\n') {
-			p++
+		var name string
+		if txt[i] == '|' {
+			k := strings.IndexByte(txt[i+1:], '|')
+			if k < 0 {
+				return
+			}
+			name = txt[i+1 : i+1+k]
+			i += k + 2
+		} else {
+			st := i
+			for i < n && txt[i] != ' ' && txt[i] != ')' && txt[i] != '\n' {
+				i++
+			}
+			name = txt[st:i]
 		}
+		skipWS()
+		p := i
 		var v uint64
-		if strings.HasPrefix(txt[p:], "#x") {
+		switch {
+		case strings.HasPrefix(txt[p:], "#x"):
 			q := p + 2
 			for q < n && isHex(txt[q]) {
 				q++
 			}
 			v, _ = strconv.ParseUint(txt[p+2:q], 16, 64)
 			p = q
-		} else if strings.HasPrefix(txt[p:], "#b") {
+		case strings.HasPrefix(txt[p:], "#b"):
 			q := p + 2
 			for q < n && (txt[q] == '0' || txt[q] == '1') {
 				q++
 			}
 			v, _ = strconv.ParseUint(txt[p+2:q], 2, 64)
 			p = q
-		} else if strings.HasPrefix(txt[p:], "true") {
+		case strings.HasPrefix(txt[p:], "true"):
 			v = 1
 			p += 4
-		} else if strings.HasPrefix(txt[p:], "false") {
+		case strings.HasPrefix(txt[p:], "false"):
 			v = 0
 			p += 5
-		} else if strings.HasPrefix(txt[p:], "(_ bv") {
+		case strings.HasPrefix(txt[p:], "(_ bv"):
 			q := p + 5
 			for q < n && txt[q] >= '0' && txt[q] <= '9' {
 				q++
 			}
 			v, _ = strconv.ParseUint(txt[p+5:q], 10, 64)
-			p = q
+			for q < n && txt[q] != ')' {
+				q++
+			}
+			p = q + 1
+		default:
+			continue
 		}
 		model[name] = v
 		i = p
